@@ -653,3 +653,23 @@ Lemma flatten_leaf group n tag k :
   flatten_field group (SLeaf n tag k) =
   [ {| fname := fst (fst (parse_tag tag n)); fpath := group ++ n; fkind := k; fdef := snd (fst (parse_tag tag n)) |} ].
 Proof. cbn [flatten_field]. unfold flag_of_field. destruct (parse_tag tag n) as [[a b] c]. reflexivity. Qed.
+
+(** * one FlagSet, several Parse calls *)
+Lemma parse_call_again w ob args : ob_parsed ob = true -> parse_call w ob args = (ob, PAlready).
+Proof. intros H. unfold parse_call. rewrite H. reflexivity. Qed.
+
+Lemma history_sealed : forall cs ob, ob_parsed ob = true -> history ob cs = repeat PAlready (length cs).
+Proof.
+  induction cs as [|[w a] r IH]; intros ob H; [reflexivity|].
+  cbn [history length repeat]. rewrite (parse_call_again w ob a H). rewrite (IH ob H). reflexivity.
+Qed.
+
+Lemma history_first w fields ob a cs :
+  new_object (w_set w) fields = Some ob ->
+  exists r0, run w fields a = RParse r0 /\ history ob ((w, a) :: cs) = r0 :: repeat PAlready (length cs).
+Proof.
+  unfold new_object, run. destruct (new_flag_set (w_set w) fields) as [fs st0|]; [|discriminate].
+  intros H. injection H as <-. exists (parse w fs st0 a). split; [reflexivity|].
+  cbn [history]. unfold parse_call. cbn [ob_parsed ob_st ob_fs].
+  destruct (parse w fs st0 a); cbn [fst snd]; rewrite history_sealed by reflexivity; reflexivity.
+Qed.
